@@ -41,9 +41,11 @@ JOBS = {
     "sphinx": {"quick": [({"SECS": 2, "VARIETY": "thin"}, 2, None), ({"SECS": 3, "VARIETY": "mini"}, 2, None)],
                "thorough": [({"SECS": 2, "VARIETY": "full"}, 4, None), ({"SECS": 3, "VARIETY": "thin"}, 8, None), ({"SECS": 4, "VARIETY": "mini"}, 8, None)]},
 }
-# no recorded defect is left (findings.d/C13.json: both fixed in /repo): the strict equality is checked everywhere
-DEFECT_JOBS: dict = {}
-CLEAN_INVARIANT = {"google": "ParsesBack", "numpy": "ParsesBack", "sphinx": "ParsesBack"}
+# google / numpy: no recorded defect is left (both fixed in /repo): the strict equality is checked.  sphinx: the strict equality fails
+# on the model in the defect configuration (a type field written after its field loses to the signature annotation, known finding);
+# the clean configurations exclude exactly that difference
+DEFECT_JOBS: dict = {"sphinx": {"SECS": 1, "VARIETY": "thin"}}
+CLEAN_INVARIANT = {"google": "ParsesBack", "numpy": "ParsesBack", "sphinx": "ParsesBackBeyondKnown"}
 
 
 class Stats:
@@ -163,7 +165,9 @@ def main(tier: str, replay: str | None = None):
                 run.note(f"{style}: the strict invariant ParsesBack holds on the model in the defect configuration (defect fixed and model updated?)")
             elif res.trace:
                 fin = res.trace[-1]
-                case = {k: fin[k] for k in ("lines", "expect", "sig", "wrap", "opts", "sections", "crash")}
+                case = {k: fin[k] for k in ("lines", "expect", "sig", "sections", "crash")}
+                case["wrap"] = fin.get("wrap", "plain")
+                case["opts"] = fin.get("opts", {})
                 case["outcome"] = fin["pc"]
                 case["flags"] = fin.get("flags", {})
                 before = sum(h["count"] for h in run.known_hits.values()) + len(run.violations)
